@@ -452,7 +452,8 @@ func (o *Obligation) buildQuery(stage string, idxSort string) string {
 		tail += "(assert " + l + ")\n"
 	}
 	tail += "(assert (not " + o.Goal + "))\n"
-	if stage == "qf" {
+	if stage == "qf" || stage == "qf2" {
+		unkeyed := stage == "qf2"
 		arr := p.arrSyms(idxSort)
 		for _, line := range strings.Split(o.Decls, "\n") {
 			if strings.HasPrefix(line, "(declare-const ") {
@@ -466,6 +467,9 @@ func (o *Obligation) buildQuery(stage string, idxSort string) string {
 		byKey := map[string][]string{}
 		var order []readTerm
 		add := func(r readTerm) bool {
+			if unkeyed {
+				r.key = ""
+			}
 			k := r.key + "\x00" + r.idx
 			if strings.Contains(r.idx, "?q") || cands[k] {
 				return false
@@ -484,7 +488,7 @@ func (o *Obligation) buildQuery(stage string, idxSort string) string {
 		seen := map[string]bool{}
 		total := 0
 		done := map[string]int{} // per key: how many candidates already used
-		for round := 0; round < 4 && total < maxInstances; round++ {
+		for round := 0; round < 7 && total < maxInstances; round++ {
 			var newText strings.Builder
 			snapshot := map[string]int{}
 			for k, v := range byKey {
@@ -498,6 +502,9 @@ func (o *Obligation) buildQuery(stage string, idxSort string) string {
 						key, off = ko[:i], ko[i+1:]
 					}
 					key = findKey(p.aliases, key)
+					if unkeyed {
+						key = ""
+					}
 					cl := byKey[key]
 					for _, t := range cl[done[key]:snapshot[key]] {
 						inst := idxSub(t, off, idxSort)
@@ -533,7 +540,7 @@ func (o *Obligation) buildQuery(stage string, idxSort string) string {
 	}
 	b.WriteString(tail)
 	b.WriteString("(check-sat)\n")
-	if stage == "qf" {
+	if stage == "qf" || stage == "qf2" {
 		b.WriteString("(get-model)\n")
 	}
 	return b.String()
@@ -609,6 +616,20 @@ func dischargeOne(o *Obligation, cfg dischargeCfg) {
 	}
 	r := try("qf", cfg.timeoutS)
 	o.Stage = "qf"
+	if o.Kind == "reach" {
+		// vacuity guard: satisfiability of the instantiated assumptions suffices
+		o.Status, o.Solver, o.TimeS, o.Answers = r.Status, r.Solver, r.TimeS, r.Answers
+		return
+	}
+	if r.Status != "unsat" && o.hasQuant() {
+		// keys of array reads did not line up textually: instantiate every
+		// hypothesis at every index term
+		r1 := try("qf2", cfg.timeoutS)
+		if r1.Status == "unsat" {
+			o.Stage = "qf2"
+			r = r1
+		}
+	}
 	if r.Status != "unsat" && o.hasQuant() {
 		r2 := try("quant", cfg.timeoutS)
 		if r2.Status == "unsat" || r.Status != "sat" {
